@@ -647,7 +647,7 @@ func traceSpecMode(prog *ctlref.Program, log []string, final string, faulted boo
 			if e.tag == "Rt" {
 				fin = "THROW " + num(40000+en.ID)
 			}
-			covered := false
+			covered, inherit := false, false
 			if len(a.pends) > 0 {
 				p := a.pends[len(a.pends)-1]
 				if closes(p, en) {
@@ -655,6 +655,9 @@ func traceSpecMode(prog *ctlref.Program, log []string, final string, faulted boo
 					if p.kind == 't' {
 						break // IteratorClose: the original throw completion wins
 					}
+					// (if what is really pending is no longer known — p is tainted — the same holds for its replacement:
+					// an unseen throw out of a generator body would win over this return()'s throw)
+					inherit = p.tainted
 					a.pends = a.pends[:len(a.pends)-1]
 				}
 			}
@@ -664,6 +667,9 @@ func traceSpecMode(prog *ctlref.Program, log []string, final string, faulted boo
 				break
 			}
 			np := m.newPend('t', en, "", fin)
+			if inherit {
+				np.tainted = true
+			}
 			if en.Kind == ctlref.YieldStar {
 				np.tainted = true // the kind of resumption (return vs throw) decides whether this throw is used
 			}
